@@ -1330,6 +1330,24 @@ func c07CheckHashFunc(c *Ctx, h *ssa.Function) {
 			why = "the write of the collision count is not under collisionCount != nil"
 			continue
 		}
+		// ... and under nothing else: every non-nil count must reach the hasher
+		extra := ""
+		onlyNilTests := func(in ssa.Instruction, chain []Call) {
+			for _, f := range p.FactsAt(in.Block()) {
+				if y, _, isNilTest := errNilTest(f.Cond); isNilTest && p.xcResolve(y, chain) == ssa.Value(cnt) {
+					continue
+				}
+				extra = p.describeFact(f)
+			}
+		}
+		onlyNilTests(cc.Instr, xc.Chain)
+		for i := range xc.Chain {
+			onlyNilTests(xc.Chain[i].Instr, xc.Chain[:i])
+		}
+		if extra != "" {
+			why = "the write of the collision count at " + p.IPos(cc.Instr) + " is skipped for some non-nil counts (additionally guarded by " + extra + ")"
+			continue
+		}
 		ok = true
 	}
 	if ok {
